@@ -34,6 +34,8 @@ func solverCmd(kind string, timeoutMs int) (string, []string, []string) {
 	switch kind {
 	case "z3-new":
 		return "z3-new", []string{"-in"}, []string{fmt.Sprintf("(set-option :timeout %d)", timeoutMs)}
+	case "cvc5-int":
+		return "cvc5", []string{"--incremental", "--strings-exp", "--produce-models", "--solve-bv-as-int=sum", fmt.Sprintf("--tlimit-per=%d", timeoutMs), "--lang=smt2"}, []string{"(set-logic ALL)"}
 	case "cvc5":
 		return "cvc5", []string{"--incremental", "--strings-exp", "--produce-models", fmt.Sprintf("--tlimit-per=%d", timeoutMs), "--lang=smt2"}, []string{"(set-logic ALL)"}
 	default:
